@@ -117,6 +117,18 @@ Example ex_success_is_not_failure :
                 (init false (Some 4) false [] ROk None 2 false) in
   pc s = PRun /\ my_sup s = Some 4 /\ ran s = 1%nat.
 Proof. vm_compute. repeat split; reflexivity. Qed.
+(* thread-local order: linked before pre_start; the future is dropped while the request is queued *)
+Example ex_thread_local_cancelled_while_queued :
+  let s0 := exec [LNew; LBegin; LWait 1; LSend (Some 2)] (init true (Some 4) true ex_script ROk None 2 false) in
+  let s := exec [LAbort; LClean; LClean; LClean; LClean; LClean; LClean] s0 in
+  pc s0 = P2 /\ my_sup s0 = Some 4 /\ name_mine s0 = true /\ at_gate s0 = true
+  /\ pc s = PDone /\ residue_free s = true /\ closed_calls s = [2].
+Proof. vm_compute. repeat split; reflexivity. Qed.
+Example ex_thread_local_supervisor_exits_while_queued :
+  let s := exec [LNew; LBegin; LSupTake; LSupStatus 6; LSupClose; LSeeKill; LClean; LClean; LClean; LClean; LClean; LClean]
+                (init false (Some 4) true ex_script ROk None 2 false) in
+  pc s = PDone /\ residue_free s = true.
+Proof. vm_compute. split; reflexivity. Qed.
 Example ex_clash :
   let s := exec [LNew; LBegin; LEff; LSend None; LJoin 1; LAbort; LClean]
                 (init true None false ex_script ROk (Some 9) 2 false) in
